@@ -78,13 +78,24 @@ class Interp:
 
     # ------------------------------------------------------------------ driver
     def run(self, max_rounds: int = 14) -> None:
+        self._call_modes: dict[str, bool] = {}   # helper -> True while every call of it was inlined, False once one was not
         for _ in range(max_rounds):
             self.changed = False
             self.rounds += 1
             self._inline_cache.clear()
             for m in self.ix.modules.values():
                 self._analyze_module_body(m)
+            # private helpers last: a helper whose every call so far was evaluated at its call site with that site's arguments (inlined)
+            # needs no context-free pass of its own - such a pass would run it for the join of all callers (e.g. a shared classmethod
+            # with `cls` = every subclass) and smear what each caller keeps apart.  The first call that cannot be inlined (too deep,
+            # too large, recursive) puts the helper back into the context-free set for good.
+            private = [f for f in self.ix.all_functions if f.name.startswith("_") and not f.name.startswith("__")]
             for f in self.ix.all_functions:
+                if f not in private:
+                    self.analyze_function(f)
+            for f in private:
+                if self._call_modes.get(f.qual) is True and f.parent is None:
+                    continue
                 self.analyze_function(f)
             if not self.changed:
                 return
@@ -374,6 +385,9 @@ class Interp:
                     flow = join(flow, AV(types=frozenset({"type"}), funcs=frozenset(("class", c.qual) for c in subs)))
             if f.module.name == f"{PKG}.cli" and not flow.labels and given is None:
                 flow = replace(flow, labels=frozenset({CONFIG}))
+            if i == 0 and f.kind == "classmethod" and given is not None and flow.funcs:
+                env[p.arg] = flow  # the class this call is made on, not every class the annotation (`type[T]`) admits
+                continue
             env[p.arg] = self.shape(ann, flow)
         if a.vararg:
             fl = (given or {}).get("*" + a.vararg.arg) if given is not None else self.params.get((f.qual, "*" + a.vararg.arg))
@@ -909,6 +923,10 @@ class Interp:
                     r2 = self.inline_call(fi, a2, kwargs)
                     if r2 is not None:
                         r = r2
+                        self._call_modes.setdefault(fi.qual, True)
+                    elif self._call_modes.get(fi.qual) is not False:
+                        self._call_modes[fi.qual] = False
+                        self.changed = True
                 out = join(out, r)
             elif kind == "class":
                 c = self.ix.classes.get(fn[1])
